@@ -86,15 +86,14 @@ def build_registry(prog, contracts):
 
 def execute(ip, func, args):
     try:
-        gen = ip.call_function(func, [], dict(args))
+        gen = ip.call_function(func, [], dict((k, v) for k, v in args.items() if not k.startswith('_')))
         v = I.run_to_completion(gen)
         if isinstance(v, I.SGen):
             # generator functions: materialise the yielded sequence lazily-correctly by draining now
             items = []
             while True:
-                try:
-                    x = I.run_to_completion(ip.next_item(v))
-                except StopIteration:
+                x = I.run_to_completion(ip.next_item(v))
+                if x is I.END:
                     break
                 items.append(x)
             v = ('generator', items)
@@ -410,13 +409,15 @@ def name_pre_state(st, args):
 
 # ---------------------------------------------------------------------------
 
-def run_path(prog, registry, contract, body_q, case_build, prefix, shared, modular=True):
+def run_path(prog, registry, contract, body_q, case_build, prefix, shared, modular=True, opts=None):
     target = contract.target
     stA = State(shared, prefix, tag='b')
     ipA = I.Interp(prog, stA, registry, modular=modular)
     ipA.no_spec_for = {target}
     fA = SymFactory(stA, ipA)
+    ipA.depth = 1          # builders reach their pre-states through callee contracts, like the spec run
     argsA = case_build(fA)
+    ipA.depth = 0
     stA.in_build = False
     ntok0, noid0 = stA.next_tok, stA.next_oid
     names = name_pre_state(stA, argsA)
@@ -428,6 +429,7 @@ def run_path(prog, registry, contract, body_q, case_build, prefix, shared, modul
     ipB = I.Interp(prog, stB, registry, modular=modular)
     ipB.no_spec_for = set()
     fB = SymFactory(stB, ipB)
+    ipB.depth = 1
     argsB = case_build(fB)
     stB.in_build = False
     if (stB.next_tok, stB.next_oid) != (ntok0, noid0):
@@ -455,9 +457,13 @@ def run_path(prog, registry, contract, body_q, case_build, prefix, shared, modul
         cmp.val('return', outA.value, outB.value)
         # arguments that are containers / arrays / objects: frame + effects
         for k in argsA:
-            if isinstance(argsA[k], (list, dict)):
+            if isinstance(argsA[k], (list, dict, tuple)):
                 cmp.val('arg ' + k, argsA[k], argsB[k])
         cmp.heap_pass()
+        if opts and opts.get('post'):
+            # postcondition / invariant taken from the property statement, evaluated on the contract's post-state
+            for nm, cond in opts['post'](fB, argsB, outB.value):
+                cmp.goals.append(('post: ' + nm, cond))
         for nm, pc, c in stA.call_obligations + stB.call_obligations:
             cmp.goals.append(('call-site ' + nm, mk_implies(mk_and(*pc) if pc else True, c)))
     res.goals = cmp.goals
